@@ -306,7 +306,7 @@ func cmdPlan(args []string) {
 					} else {
 						a := canonResult(q.Exec(context.Background()))
 						b := canonResult(rq.Exec(context.Background()))
-						if d := diffCanon(a, b, true); d != "" {
+						if d := diffCanon(a, b, false); d != "" { // tolerance: the reference itself sums in map-iteration order
 							pc.ExecCmp = d
 						} else if a.Kind == "error" && a.Err != b.Err {
 							pc.ExecCmp = "error class " + a.Err + " vs " + b.Err
